@@ -71,6 +71,14 @@ def cases(tier, seed):
                            "flat": j % 5 == 0,
                            "split": kind == "tuple2" and j % 2 == 0,
                            "keyrot": j % 3}
+                    if t == 0 and len(names) >= 2:
+                        # the same request through a long-lived Runner that
+                        # ran something else before (other argument order
+                        # given for that run only)
+                        yield {"uni": u, "cases": od, "kind": "num",
+                               "subgrid": sg, "api": "runner",
+                               "shuffle": [False, True, 3][(j // 2) % 3],
+                               "flat": True, "split": False, "keyrot": j % 3}
     # rejected overlaps
     for u in unis:
         for kind in ("num", "dataset"):
@@ -123,6 +131,35 @@ def check_case(case):
                 flat = case["flat"]
                 # axis order = key order of the first case
                 ax_names = list(dcases[0].keys())
+            elif case["api"] == "runner":
+                r = xyz.Runner(f, fn_args=names + gnames, var_names="out")
+                with xfn.CallLog():
+                    # an earlier run on the same object: argument names
+                    # given for that run only, in another order
+                    rn = (names + gnames)[::-1]
+                    first = tuple(
+                        dict(zip(names + gnames, chosen[0] + gpts[0]))[a]
+                        for a in rn)
+                    r.run_cases([first], fn_args=rn, verbosity=0)
+                    if case["keyrot"]:
+                        r.run_cases([dict(zip(names, chosen[-1]))],
+                                    combos=tuple(sub), verbosity=0)
+                ds = r.run_cases([tuple(c) for c in chosen],
+                                 fn_args=names if case["keyrot"] == 2
+                                 else None, combos=tuple(sub),
+                                 verbosity=0, shuffle=case["shuffle"])
+                got = []
+                for c in chosen:
+                    for g in gpts:
+                        got.append(ds["out"].sel(
+                            dict(zip(names + gnames, c + g))).item())
+                nn = int(ds["out"].notnull().sum())
+                if nn != len(chosen) * len(gpts):
+                    vio.append((key("not-missing"),
+                                "cases %r: %d cells hold data, %d requested"
+                                % (chosen, nn, len(chosen) * len(gpts))))
+                flat = True
+                ax_names = names
             else:
                 tcases = [tuple(c) for c in chosen]
                 fa = names
